@@ -22,6 +22,8 @@ COPIA_ASAN = TARGET + "/cli-asan%s/x86_64-unknown-linux-gnu/release/copia" % SFX
 VARIANT = os.environ.get("VERIF_VARIANT", "")
 if VARIANT == "asan":
     COPIA = COPIA_ASAN
+if VARIANT == "cov":
+    COPIA = TARGET + "/cli-cov%s/release/copia" % SFX
 VH = TARGET + "/vh%s/release/vh" % SFX
 VH_DEBUG = TARGET + "/vh%s/verif-debug/vh" % SFX
 SHIM = TARGET + "/libfsmon.so"
@@ -94,6 +96,8 @@ def build(*what):
     env = dict(os.environ, VERIF_REPO=REPO, VERIF_TARGET=TARGET, CARGO_NET_OFFLINE="true")
     if VARIANT == "asan":
         what = tuple("cli-asan" if w == "cli" else w for w in what)
+    if VARIANT == "cov":
+        what = tuple("cli-cov" if w == "cli" else w for w in what)
     r = subprocess.run([V + "/bin/build.sh", *what], env=env, stdout=subprocess.PIPE, stderr=subprocess.PIPE, text=True)
     if r.returncode != 0:
         sys.stderr.write(r.stdout + r.stderr)
